@@ -45,8 +45,8 @@ func (c03) CaseTimeout() time.Duration { return 120 * time.Second }
 func (c03) InitWorker()                { logrus.SetOutput(io.Discard) }
 
 type c03Case struct {
-	File string   `json:"file"` // path under /repo, or "gen:<n>"
-	Ops  []layOp  `json:"ops"`
+	File string  `json:"file"` // path under /repo, or "gen:<n>"
+	Ops  []layOp `json:"ops"`
 }
 type layOp struct {
 	Op  string `json:"op"` // scale, div, tab, blank, comment, comment0
